@@ -55,6 +55,8 @@ def childiterOf (k : String) : List (Tree A) → List (Tree A) :=
   match k with
   | "reversed" => List.reverse
   | "first2" => List.take 2
+  | "none" => fun _ => []                      -- a filtering childiter may remove every child
+  | "tail" => List.drop 1
   | "sorted" => fun cs => (cs.toArray.qsort (fun x y => toString (repr x.label) < toString (repr y.label))).toList
   | _ => id
 
